@@ -53,6 +53,8 @@ def cases(tier):
         for last in (None, 1, 9, 99, 998, 999):
             cs.append(('next-search', T, '*', last)); cs.append(('next-search', T, '>', last))
             cs.append(('new', T, last))
+        # sparse sets of existing versions around the Sid's own version v005 (existing or not): get_new is the successor of the LAST existing one
+        for E in ((5,), (5, 7), (3, 5), (5, 6), (1, 2, 5, 9), (4, 6), (6,)): cs.append(('new', T, E))
     for T in version_parent():
         cs.append(('first', T))
         for last in (None, 1, 999): cs.append(('new-noversion', T, last))
@@ -74,7 +76,18 @@ def mk(it, st, T, version=None):
     return x, vals
 
 def install_stubs(it, st, T, last):
-    """FindInAll: find_one answers with the sibling of greatest existing version (or the empty Sid); GetFromAll routes next.version to NextGetter"""
+    """FindInAll: find_one answers with the sibling of greatest existing version (or the empty Sid), exists answers from the set of existing versions;
+    GetFromAll routes next.version to NextGetter.   last: None | the only existing version | a tuple of existing versions"""
+    existing = set(last) if isinstance(last, tuple) else (set() if last is None else {last})
+    last = max(existing) if existing else None
+    def exists(it_, search):
+        f = search.attrs['_fields'] if isinstance(search, PObj) else None
+        if f is None: raise OutsideSubset('exists() on a non-Sid')
+        v = [vv for k, vv in f.items if k == 'version']
+        if not v: return bool(existing)              # an ancestor of existing entities exists
+        vs = simp(it_.st.norm(v[0])) if isinstance(v[0], SStr) else v[0]
+        if not isinstance(vs, str): raise OutsideSubset('exists() of a symbolic version')
+        return vs[1:].isdigit() and int(vs[1:]) in existing
     Sid = C.sid_class(it)
     ng = it.module('hamlet_plugins.next_get').ns['NextGetter']
     asked = []
@@ -85,7 +98,7 @@ def install_stubs(it, st, T, last):
         items = [(k, ('v%03d' % last) if k == 'version' else v) for k, v in f.items]
         o = PObj(Sid); o.attrs.update({'_type': search.attrs['_type'], '_fields': PDict(items), '_string': it_.concat(interleave('/', [v for _, v in items]))})
         return o
-    fa = PClass('FindInAll', [V.OBJECT]); fa.ns['find_one'] = PBuiltin(find_one, 'find_one')
+    fa = PClass('FindInAll', [V.OBJECT]); fa.ns['find_one'] = PBuiltin(find_one, 'find_one'); fa.ns['exists'] = PBuiltin(exists, 'exists')
     def get_attr(it_, sid, attribute=None):
         return it_.call(it_.getattr(it_.call(ng, [], {}), 'get_attr'), [sid, attribute], {})
     ga = PClass('GetFromAll', [V.OBJECT]); ga.ns['get_attr'] = PBuiltin(get_attr, 'get_attr')
@@ -139,7 +152,8 @@ def run(it, st, case):
         except Raised as e:
             st.oblige('C18:DataSid.get_new:raises-nothing', False, ('C18',), info={'exception': V.exc_name(e), 'last': last}); return 'ok'
         # successor of the last existing version; when nothing exists, the successor of the Sid's own version (it does not exist yet)
-        expect(it, st, 'C18:DataSid.get_new', r, T, vals, (last + 1) if last is not None else 6)
+        top = max(last) if isinstance(last, tuple) else last
+        expect(it, st, 'C18:DataSid.get_new', r, T, vals, (top + 1) if top is not None else 6)
         st.observed = {'last': last}
         return 'ok'
     if kind in ('first', 'new-noversion'):
